@@ -712,4 +712,113 @@ theorem sat_iff {pb : Problem} (hw : WellFormed pb) {H W : Nat} (hH : pb.height 
   rw [hcs, htop, orient_iff, ignored_iff, rank_iff, cells_iff hw hH hW]
   tauto
 
+/-! ### an assignment that carries given functions -/
+
+/-- The assignment whose frames / arrays hold the given functions. -/
+def mkσ (H W : Nat) (on ul dr ig : Seg → Bool) (rank : Pt → Int) (nt : Seg → Int) : Asg :=
+  let N := Frame.numVars H W
+  { b := fun id =>
+      match (allSegs H W)[id % N]? with
+      | some s => if id / N = 0 then on s else if id / N = 1 then ul s else if id / N = 2 then dr s else ig s
+      | none => false,
+    i := fun id =>
+      if id < 4 * N + (H + 1) * (W + 1) then rank ((id - 4 * N) / (W + 1), (id - 4 * N) % (W + 1))
+      else if id < 4 * N + (H + 1) * (W + 1) + (H + 1) * W then
+        nt (Seg.h ((id - (4 * N + (H + 1) * (W + 1))) / W) ((id - (4 * N + (H + 1) * (W + 1))) % W))
+      else nt (Seg.v ((id - (4 * N + (H + 1) * (W + 1) + (H + 1) * W)) / (W + 1))
+        ((id - (4 * N + (H + 1) * (W + 1) + (H + 1) * W)) % (W + 1))) }
+
+section mk
+variable (H W : Nat) (on ul dr ig : Seg → Bool) (rank : Pt → Int) (nt : Seg → Int)
+
+theorem mkσ_b (k : Nat) (s : Seg) (hs : s.Valid H W) :
+    (mkσ H W on ul dr ig rank nt).b (s.var (k * Frame.numVars H W) H W) =
+      if k = 0 then on s else if k = 1 then ul s else if k = 2 then dr s else ig s := by
+  have hlt := var_lt H W s hs
+  have hpos : 0 < Frame.numVars H W := by omega
+  rw [var_base]
+  simp only [mkσ]
+  have e1 : (k * Frame.numVars H W + Seg.var 0 H W s) % Frame.numVars H W = Seg.var 0 H W s := by
+    rw [Nat.mul_comm, Nat.mul_add_mod, Nat.mod_eq_of_lt hlt]
+  have e2 : (k * Frame.numVars H W + Seg.var 0 H W s) / Frame.numVars H W = k := by
+    rw [Nat.mul_comm, Nat.mul_add_div hpos, Nat.div_eq_of_lt hlt]; simp
+  rw [e1, e2, C11Loop.allSegs_var_getElem? H W s hs]
+
+theorem mkσ_on (s : Seg) (hs : s.Valid H W) : onσ H W (mkσ H W on ul dr ig rank nt) s = on s := by
+  have := mkσ_b H W on ul dr ig rank nt 0 s hs
+  simpa [onσ] using this
+
+theorem mkσ_ul (s : Seg) (hs : s.Valid H W) : ulσ H W (mkσ H W on ul dr ig rank nt) s = ul s := by
+  have := mkσ_b H W on ul dr ig rank nt 1 s hs
+  simpa [ulσ] using this
+
+theorem mkσ_dr (s : Seg) (hs : s.Valid H W) : drσ H W (mkσ H W on ul dr ig rank nt) s = dr s := by
+  have := mkσ_b H W on ul dr ig rank nt 2 s hs
+  simpa [drσ] using this
+
+theorem mkσ_ig (s : Seg) (hs : s.Valid H W) : igσ H W (mkσ H W on ul dr ig rank nt) s = ig s := by
+  have := mkσ_b H W on ul dr ig rank nt 3 s hs
+  simpa [igσ] using this
+
+theorem mkσ_rank (p : Pt) (hy : p.1 ≤ H) (hx : p.2 ≤ W) : rankσ H W (mkσ H W on ul dr ig rank nt) p = rank p := by
+  simp only [rankσ, mkσ]
+  have hlt : p.1 * (W + 1) + p.2 < (H + 1) * (W + 1) := C11Grid.cell_lt (by omega) (by omega)
+  rw [if_pos (by omega), Nat.add_sub_cancel_left, (C11Grid.cell_div_mod (show p.2 < W + 1 by omega)).1,
+    (C11Grid.cell_div_mod (show p.2 < W + 1 by omega)).2]
+
+theorem mkσ_nt (s : Seg) (hs : s.Valid H W) : ntσ H W (mkσ H W on ul dr ig rank nt) s = nt s := by
+  cases s with
+  | h y x =>
+    obtain ⟨hy, hx⟩ := hs
+    have hlt : y * W + x < (H + 1) * W := C11Grid.cell_lt (by omega) hx
+    simp only [ntσ, ntH, mkσ]
+    rw [if_neg (by omega), if_pos (by omega), Nat.add_sub_cancel_left, (C11Grid.cell_div_mod hx).1,
+      (C11Grid.cell_div_mod hx).2]
+  | v y x =>
+    obtain ⟨hy, hx⟩ := hs
+    have hlt : y * (W + 1) + x < H * (W + 1) := C11Grid.cell_lt hy (by omega)
+    simp only [ntσ, ntV, mkσ]
+    rw [if_neg (by omega), if_neg (by omega), Nat.add_sub_cancel_left,
+      (C11Grid.cell_div_mod (show x < W + 1 by omega)).1, (C11Grid.cell_div_mod (show x < W + 1 by omega)).2]
+
+end mk
+
+/-! ### the program encodes "there is a certificate" -/
+
+theorem encodes_cert {pb : Problem} (hw : WellFormed pb) {H W : Nat} (hH : pb.height = H + 1) (hW : pb.width = W + 1) :
+    EncodesRules (progE pb H W)
+      (fun a => ∃ on : Seg → Bool, a = segAnswer H W on ∧ HasCert pb H W (maxNS pb + 1) on) := by
+  have hdecl : (progE pb H W).decls = List.replicate (Frame.numVars H W) .bool ++
+      (List.replicate (3 * Frame.numVars H W) .bool ++
+        List.replicate ((H + 1) * (W + 1)) (.int 0 (((H + 1 : Nat) : Int) * ((W + 1 : Nat) : Int) - 1)) ++
+        List.replicate ((H + 1) * W) (.int 0 (maxNS pb + 1)) ++ List.replicate (H * (W + 1)) (.int 0 (maxNS pb + 1))) := by
+    simp only [progE, declsE, List.append_assoc]
+    rw [← List.append_assoc, ← List.replicate_add]
+    congr 2; omega
+  have hkv : ∀ σ : Asg, (progE pb H W).keyVals σ = (segAnswer H W (onσ H W σ)).map some := by
+    intro σ
+    unfold PuzzleProg.keyVals
+    rw [hdecl]
+    exact C11Loop.keyVals_frame H W _ σ
+  intro a
+  constructor
+  · rintro ⟨σ, hσ, hk⟩
+    refine ⟨onσ H W σ, ?_, ?_⟩
+    · rw [hkv] at hk
+      exact ((List.map_inj_right (fun _ _ e => Option.some.inj e)).mp hk).symm
+    · rw [hasCert_iff]
+      exact ⟨_, _, _, _, _, (sat_iff hw hH hW σ).mp hσ⟩
+  · rintro ⟨on, rfl, hc⟩
+    rw [hasCert_iff] at hc
+    obtain ⟨ul, dr, ig, rank, nt, hc⟩ := hc
+    refine ⟨mkσ H W on ul dr ig rank nt, (sat_iff hw hH hW _).mpr ?_, ?_⟩
+    · exact certP_congr pb H W _
+        (fun s hs => (mkσ_on H W on ul dr ig rank nt s hs).symm) (fun s hs => (mkσ_ul H W on ul dr ig rank nt s hs).symm)
+        (fun s hs => (mkσ_dr H W on ul dr ig rank nt s hs).symm) (fun s hs => (mkσ_ig H W on ul dr ig rank nt s hs).symm)
+        (fun p hy hx => (mkσ_rank H W on ul dr ig rank nt p hy hx).symm)
+        (fun s hs => (mkσ_nt H W on ul dr ig rank nt s hs).symm) hc
+    · rw [hkv]
+      congr 1
+      exact C11Loop.segAnswer_congr H W _ _ (fun s hs => mkσ_on H W on ul dr ig rank nt s hs)
+
 end Cspuz.Proofs.C11FireflyL1
